@@ -7,9 +7,10 @@
 (*   - a byte-level transcription of the index side: proxy/bulk/indexer.go *)
 (*     (decodeInternal, index) and tokenizer/{keyword,path,text}_tokenizer *)
 (*     incl. size limits, partial indexing, toLowerTryInplace;             *)
-(*   - a transcription of the query side: the SeqQL lexer for the four     *)
-(*     literal styles (parser/seqql.go: Next, unquotePrefix incl. the      *)
-(*     escape sequences of strconv.UnquoteChar, raw strings,               *)
+(*   - a transcription of the query side: the SeqQL lexer for the literal  *)
+(*     styles "..." '...' `...` and bare, the quoted ones with minimal     *)
+(*     escaping and with escape codes (parser/seqql.go: Next, unquotePrefix*)
+(*     incl. the escape sequences of strconv.UnquoteChar, raw strings,     *)
 (*     composite bare tokens) and parser/seqql_filter.go: parseSeqQLKeyword*)
 (*     / parseSeqQLText, term matching as in pattern/pattern.go;           *)
 (*   - a REFERENCE definition, written on runes and independently of the   *)
